@@ -40,12 +40,15 @@ def shrink_overlay(cid, tier):
         if rx.search(text):
             found.append((fn, text))
     if len(found) != 1:
-        L.tool_error("C17: expected exactly one non-test file of %s defining the constant maxNumEntries, found %d (%s)"
-                     % (PKG, len(found), ", ".join(f for f, _ in found)))
+        # spelled differently in the tree under test: the count-rotation build cannot be made; not a verdict (see run())
+        L.log("C17: expected exactly one non-test file of %s defining the constant maxNumEntries, found %d (%s)"
+              % (PKG, len(found), ", ".join(f for f, _ in found)))
+        return None
     fn, text = found[0]
     new, n = rx.subn(lambda m: "%s%d%s" % (m.group(1), SHRUNK, m.group(3)), text, count=1)
     if n != 1 or new == text:
-        L.tool_error("C17: could not rewrite maxNumEntries in %s" % fn)
+        L.log("C17: could not rewrite maxNumEntries in %s" % fn)
+        return None
     out = os.path.join(L.build_dir(cid), "shrunk_" + fn)
     with open(out, "w") as fh:
         fh.write(new)
@@ -83,6 +86,8 @@ MANIFEST = dict(
 
 def build(cid, mode):
     extra = shrink_overlay(cid, None) if mode == "count" else None
+    if mode == "count" and extra is None:
+        return None
     ov = L.gen_overlay(cid, HOOKS, extra)
     # gen_overlay writes one overlay.json per check id; keep one per mode
     ovm = os.path.join(L.build_dir(cid), "overlay-%s.json" % mode)
@@ -97,6 +102,8 @@ def run(tier, replay):
         case = json.load(open(replay)).get("replay") or {}
         mode = case.get("mode", "count")
         binp = build(cid, mode)
+        if binp is None:
+            L.tool_error("replay of a count-rotation case needs the shrunk maxNumEntries, which cannot be built for this tree")
         scratch = L.scratch_root(cid)
         try:
             reps = L.run_workers(cid, binp, TEST, "quick", 1, 900, scratch,
@@ -116,15 +123,20 @@ def run(tier, replay):
     scratch = L.scratch_root(cid)
     try:
         bin_count = build(cid, "count")
-        bin_size = build(cid, "size") if tier == "thorough" else None
+        # without the shrunk constant only the unmodified build can run (size rotation with 11 MiB payloads), in every tier
+        bin_size = build(cid, "size") if (tier == "thorough" or bin_count is None) else None
         if bin_size:
             # size mode first: 11 MiB payloads, few histories, memory hungry -> fewer workers
             dls = min(dl, 600)
             reports += L.run_workers(cid, bin_size, TEST, tier, 8, dls, os.path.join(scratch, "size"),
                                      extra_env={"VERIF_C17_MODE": "size"})
             L.log("size mode done in %.0fs" % (time.time() - t0))
-        reports += L.run_workers(cid, bin_count, TEST, tier, nw, dl, os.path.join(scratch, "count"),
-                                 extra_env={"VERIF_C17_MODE": "count"})
+        if bin_count is not None:
+            reports += L.run_workers(cid, bin_count, TEST, tier, nw, dl, os.path.join(scratch, "count"),
+                                     extra_env={"VERIF_C17_MODE": "count"})
+        else:
+            reports.append({"evaluations": 0, "exhaustive": False, "counters": {"count_mode_skipped": 1},
+                            "notes": ["count-rotation mode skipped: constant maxNumEntries not found in lib/raftlog"]})
     finally:
         shutil.rmtree(scratch, ignore_errors=True)
     return L.finish(cid, tier, SPEC["level"], RULE, reports, t0, ASSUMPTIONS,
